@@ -23,3 +23,6 @@ INSERT INTO w VALUES (1, 1)
 INSERT INTO w VALUES (2, 2)
 UPDATE w SET a = 5
 SELECT id, a FROM w ORDER BY id
+-- (fix for multi-row INSERT under CREATE UNIQUE INDEX: BEFORE, the next statement succeeded and the table held (3, 5) and (4, 5); AFTER, it is rejected)
+INSERT INTO w VALUES (3, 5), (4, 5)
+SELECT id, a FROM w ORDER BY id
